@@ -97,7 +97,9 @@ _AF = dict(
         # atomistic fragments: if every template atom and every atom of the molecule is fit for hydrogen completion, so is every atom afterwards
     ],
     # run-time only: what is left at the growth site comes from its list without the first occurrence of the used descriptor
-    native_ensures=["implies(not member(cb, self.terminal_bonds), all(member(x, without_first(site_before, sb)) for x in attr(molecule, site, 'bonding')))"],
+    native_ensures=["implies(not member(cb, self.terminal_bonds), all(member(x, without_first(site_before, sb)) for x in attr(molecule, site, 'bonding')))",
+                    # hydrogen bookkeeping touches the two bonded atoms only
+                    "all(implies(old(has_node(molecule, n)) and n != site, attr_unchanged(molecule, n, 'hcount')) for n in nodes(molecule))"],
     raises={'ValueError': {'when': None}, 'IndexError': {'when': None}, 'OSError': {'when': None}},
     modifies=["molecule"],
     ghosts={'copies': ('Int', '0'), 'bonds': ('Int', '0'), 'site': ('Int', '0'), 'newnode': ('Int', '0'), 'cb': ('Str', "''"), 'sb': ('Str', "''"),
